@@ -20,12 +20,13 @@ BASE = {
     "no_commands": False, "second_file": False, "private_field_type": "u32", "crate_field": False,
     "cmd_rename_all": None, "param_serde_rename": None, "status_serde": True, "channel_name": "on_progress", "validator_range": None, "second_struct_field": "i32",
     "notice_min": 3, "notice_level": "i32", "notice_nested": "u8", "tm_targets": ("string", "string"),
-    "same_name_field_rename": False, "same_name_variant_rename": False, "no_events": False, "second_emit_site": True,
+    "same_name_field_rename": False, "same_name_variant_rename": False, "no_events": False, "second_emit_site": True, "cmds_swapped": False,
 }
 
 # edit classes: name -> function(state) (toggles, so that sequences compose); "affects": None=always, "zod"=only visible in zod mode
 EDITS = [
     ("add-remove-command", lambda s: s.update(cmd_extra=not s["cmd_extra"])),
+    ("swap-two-commands-in-their-file", lambda s: s.update(cmds_swapped=not s["cmds_swapped"])),
     ("rename-command", lambda s: s.update(cmd_name="fetch_user" if s["cmd_name"] == "get_user" else "get_user")),
     ("parameter-name", lambda s: s.update(param_name="uid" if s["param_name"] == "user_id" else "user_id")),
     ("parameter-type", lambda s: s.update(param_type="String" if s["param_type"] == "i32" else "i32")),
@@ -121,9 +122,10 @@ def render(s):
         params.append((s["channel_name"], "Channel<%s>" % s["channel_type"]))
     cmds = ""
     if not s["no_commands"]:
-        cmds += rg.command_src(s["cmd_name"], params, s["ret_type"], is_async=s["is_async"],
+        first = rg.command_src(s["cmd_name"], params, s["ret_type"], is_async=s["is_async"],
                                post_attrs=['#[serde(rename_all = "%s")]' % s["cmd_rename_all"]] if s["cmd_rename_all"] else ())
-        cmds += rg.command_src("save_user", [("user", "User")], "Result<(), String>")
+        second = rg.command_src("save_user", [("user", "User")], "Result<(), String>")
+        cmds += (second + first) if s["cmds_swapped"] else (first + second)
         if s["cmd_extra"]:
             cmds += rg.command_src("extra_cmd", [("flag", "bool")], "Status")
     ev = "pub fn notify(app: AppHandle, payload: %s) {\n    %sapp.emit(\"%s\", payload).unwrap();\n}\n\n" % (s["event_payload"], "// " if s["no_events"] else "", s["event_name"])
@@ -206,8 +208,10 @@ def compare(now, ref):
             # listings follow hash order: compare as multisets of lines, comma lists sorted within a line
             if graph_norm(now[f]) != graph_norm(text):
                 bad.append((f, "stale"))
-        elif now[f] != text and decl_multiset(now[f]) != decl_multiset(text):
-            bad.append((f, "stale"))
+        elif now[f] != text:
+            # same declarations in another order is staleness too ("the same content"): the order of the output is a function of the
+            # sources (C13), so a forced generation would have written them in the new order
+            bad.append((f, "stale" if decl_multiset(now[f]) != decl_multiset(text) else "stale-order"))
     return bad
 
 
